@@ -39,7 +39,7 @@ ASSUMPTIONS = [
 REQUIRED_LABELS = {t: ["iteration:valid", "iteration:invalid", "hash:invalid", "sig:malformed",
                        "authorized", "never-authorized", "device-error", "sigs>=2",
                        "signapp:key", "signapp:manual", "signapp:eth", "iter:65535", "iter:0",
-                       "duplicate-signature", "malformed-file",
+                       "duplicate-signature", "malformed-file", "via:program",
                        "signapp:other-iteration-on-existing-file|signapp:other-iteration-refused"]
                    for t in ("quick", "thorough")}
 h32 = st.binary(min_size=32, max_size=32)
@@ -96,7 +96,9 @@ def cases(draw, tier):
             "error_at": draw(st.one_of(st.none(), st.none(), st.integers(1, 10))),
             "signapp_keys": [draw(st.integers(1, 2 ** 255)) for _ in range(2)],
             "app": draw(st.binary(min_size=1, max_size=400)),
-            "pin": "abcd1234"}
+            "pin": "abcd1234",
+            # authorize_signer through adm_ledger.py with a command line
+            "program": draw(st.integers(0, 3)) == 0}
 
 
 _TMP = {}
@@ -368,9 +370,15 @@ def run_case(c):
                                  verbose=False, no_exec=False)
     buf = io.StringIO()
     exc = None
+    fn = auths.do_authorize_signer
+    if c.get("program"):
+        # through adm_ledger.py with a command line
+        from vlib.programs import as_program
+        fn = as_program(fn, opts, True)
+        labels.append("via:program")
     try:
         with contextlib.redirect_stdout(buf):
-            auths.do_authorize_signer(opts)
+            fn(opts)
     except Exception as e:   # noqa
         exc = e
     mw.check_sim(w)
